@@ -64,6 +64,30 @@ theorem c08_files (reqs : List (Nat × CReq)) (e : Nat) (ok : Nat → Bool) (cli
   rw [hfifo]
   exact (c08_reader ok client evs hopen).1
 
+theorem consumed_append_shutdowns (reqs : List (Nat × CReq)) (tail : List TMsg) :
+    consumed (reqs.map (fun r => TMsg.req r.1 r.2) ++ TMsg.shutdown :: tail) = reqs := by
+  induction reqs with
+  | nil => simp [consumed]
+  | cons a t ih => simp [consumed, ih]
+
+/-- **C08 (shutdown never overtakes data).** A compressor thread leaves its loop at the first
+`Shutdown` it receives and writes nothing that is queued behind it. The run sends the `Shutdown`s of a
+group only after every task of the group has been joined, i.e. after every reader has queued its
+last `Data` and its `End`; the channel is FIFO, so every request precedes the first `Shutdown`, and
+then - whatever follows it on the channel - the file of every encoder holds exactly its reader's
+bytes. -/
+theorem c08_shutdown (reqs : List (Nat × CReq)) (tail : List TMsg) (e : Nat) (ok : Nat → Bool)
+    (client : Bool) (evs : List REv) (hopen : Open evs)
+    (hfifo : (reqs.filter (fun r => r.1 = e)).map (·.2) = (rrun ok client (evs ++ [.eof])).out) :
+    threadFile (reqs.map (fun r => TMsg.req r.1 r.2) ++ TMsg.shutdown :: tail) e = chunkBytes evs := by
+  unfold threadFile
+  rw [consumed_append_shutdowns]
+  exact c08_files reqs e ok client evs hopen hfifo
+
+/-- a `Shutdown` (or any other early exit of the thread) ahead of queued data loses that data: the
+stored log is a proper prefix of what was written -/
+example : threadFile [.req 0 (.data [[97, 10]]), .shutdown, .req 0 (.data [[98, 10]]), .req 0 .endReq] 0 = [97, 10] := by decide
+
 /-- **C08 (`log show`).** One header followed by the bytes, for every selected non-empty log. -/
 theorem c08_show_cons (h l : Bytes) (rest : List (Bytes × Bytes)) :
     showLogs ((h, l) :: rest) = (if l.isEmpty then [] else h ++ l) ++ showLogs rest := by
